@@ -29,6 +29,10 @@ def run(ctx):
     hpackrules.resumability(r, F)
     r = ctx.rule('C11.R6', 'PAIR', 'decoder dynamic-table accounting is paired')
     hpackrules.table_accounting(r, F)
+    r = ctx.rule('C11.R9', 'GUARD', 'every field of a block is decoded even when the block is refused: the callback breaks off only on the connection-fatal abuse limit')
+    hpackrules.decode_runs_to_end(r, F)
+    from . import C14
+    C14.r4_local(ctx, 'C11.R8', 'C11.R8b')  # the decoder's size-update ceiling follows the acknowledged local HEADER_TABLE_SIZE
     r = ctx.rule('C11.R7', 'TABLE', 'entry size = 32 + name + value with the right pseudo-name lengths (RFC 7541 §4.1)')
     hpackrules.entry_size(r, F)
 
